@@ -283,7 +283,8 @@ def solve_stream(c):
 
 
 def radau_stream(c):
-    """X-radau: the control model of Radau replayed on the control trace of real runs (hook verif_hooks::trace)"""
+    """X-radau / X-bdf: the control models of Radau and BDF replayed on the control trace of real runs (hook verif_hooks::trace)"""
+    c.stream("xbdf", ["xbdf", c.seed, 150 if c.tier == "quick" else 3000], "bdf")
     return c.stream("xradau", ["xradau", c.seed, 150 if c.tier == "quick" else 3000], "radau")
 
 
@@ -294,7 +295,7 @@ def only_keys(c, prefixes):
 
 
 C03_THEOREMS = ["Ctl.hAdjust_lands", "Ctl.hIter_success_at_xend", "Ctl.hLoop_success_at_xend", "Ctl.dopri5Params_guard",
-                "Ctl.dop853Params_guard", "Ctl.hIter_cases", "Ctl.hSolve_protocol", "Ctl.rk23Adjust_lands", "Ctl.rk23Loop_success_at_xend", "Ctl.rk4Loop_success_at_xend", "RadauCtl.pass_land", "RadauCtl.run_success_at_xend", "RadauCtl.start_land", "rowsum_rk4", "rowsum_rk23", "rowsum_dopri5", "rowsum_dop853"]
+                "Ctl.dop853Params_guard", "Ctl.hIter_cases", "Ctl.hSolve_protocol", "Ctl.rk23Adjust_lands", "Ctl.rk23Loop_success_at_xend", "Ctl.rk4Loop_success_at_xend", "RadauCtl.pass_land", "RadauCtl.run_success_at_xend", "RadauCtl.start_land", "BdfCtl.limits_spec", "BdfCtl.pass_land", "BdfCtl.run_success_at_xend", "BdfCtl.start_inv", "rowsum_rk4", "rowsum_rk23", "rowsum_dopri5", "rowsum_dop853"]
 
 
 def c03(c):
@@ -366,7 +367,7 @@ def c12(c):
     c.partial = ["RK23/RK4 skeletons: observer independence not restated (same `afterCb`; co-simulated); Radau/BDF: monitor only"]
 
 
-C18_THEOREMS = ["RadauCtl.newtonLoop_ode", "RadauCtl.pass_ode", "Ctl.Meter.counted_bump", "Ctl.Meter.counted_cb", "Ctl.Meter.counted_refresh", "Ctl.afterCb_counted",
+C18_THEOREMS = ["RadauCtl.newtonLoop_ode", "RadauCtl.pass_ode", "BdfCtl.newtonLoop_ode", "Ctl.Meter.counted_bump", "Ctl.Meter.counted_cb", "Ctl.Meter.counted_refresh", "Ctl.afterCb_counted",
                 "Ctl.dopri5Kernel_ok", "Ctl.dop853Kernel_ok", "Ctl.hinit_calls", "Ctl.rk23_stages_calls", "Ctl.rk4_stages_calls",
                 "Ctl.rk4_update_calls", "Ctl.hSolve_counted", "Ctl.C18_dopri5", "Ctl.C18_dop853", "Ctl.rk23Solve_inv", "Ctl.rk4Solve_inv"]
 
